@@ -136,6 +136,9 @@ func c04Cases(tier string) []SchedCase {
 	add("", `{ts{name req}}`, planOf("ts[0].req", "panic", "ts[1].name", "panic"), true)
 	add("", `{t{kids{name} kidsReq{req}}}`, planOf("t.kids[0].name", "panic", "t.kidsReq[1].req", "panic"), true)
 	add("", `{t{guarded name}}`, planOf("@t.guarded", "panic", "~t.name", "panic"), true)
+	// a panic at the list-element level (a Go type the generated type switch does not know)
+	add("", `{peers{id peer{id}} str}`, planOf("peers[0]", "rogue"), true)
+	add("", `{peers{id} ts{name}}`, planOf("peers[1]", "rogue", "ts[0].name", "panic"), true)
 	return out
 }
 
@@ -263,7 +266,7 @@ func (si *schedInst) checkFaultScenario(x *explore.Exec) (string, string) {
 	}
 	injected := 0
 	for _, o := range si.C.Plan {
-		if o == "panic" {
+		if o == "panic" || o == "rogue" {
 			injected++
 		}
 	}
@@ -346,8 +349,14 @@ func (si *schedInst) checkFaultScenario(x *explore.Exec) (string, string) {
 	}
 	faults := 0
 	for _, o := range si.C.Plan {
-		if o == "panic" || o == "error" {
+		if o == "panic" || o == "error" || o == "rogue" {
 			faults++
+		}
+	}
+	// single-payload operations additionally match the reference exactly
+	if len(si.Resp) == 1 && si.Resp[0].HasNext == nil {
+		if sig, msg := si.Inst.CheckSemantics(x); sig != "" && !si.S.knownQuirk(sig) {
+			return sig, msg
 		}
 	}
 	if nerr != faults {
@@ -543,3 +552,5 @@ func (si *schedInst) serveWebsocket(ctx context.Context, srv *handler.Server, pa
 	})
 	srv.ServeHTTP(hrw, req)
 }
+
+func (s *Shared) knownQuirk(sig string) bool { return strings.HasPrefix(sig, "quirk:") }
